@@ -26,7 +26,7 @@ OnCall(st, e, n) ==
     ELSE Good([st EXCEPT !.cl = CliStart(e.op, e.idx, e.sub, Len(e.data), e.size, e.force), !.ci = n,
                          !.odsize = e.odsize, !.dist = FALSE, !.expTO = FALSE, !.busy = TRUE])
 
-OnX(st, e, od, data) ==
+OnX(st, e, od, data, realsrv) ==
     LET forced == e.fault \in {"abort", "refuse"}
         \* a forced abort: the server refuses the request without executing it
         j == IF forced THEN [ok |-> Len(e.r) = 1 /\ IsAbort(e.r[1]), why |-> "forced abort is not an abort frame",
@@ -34,7 +34,7 @@ OnX(st, e, od, data) ==
              ELSE SrvJudge(st.sv, st.buf, od, st.store, e.q, e.r) IN
     IF ~st.busy THEN Bad(st, "frame emitted outside a call")
     ELSE IF ~IsFrame8(e.q) THEN Bad(st, "client frame is not 8 bytes")
-    ELSE IF ~j.ok THEN Bad(st, "HARNESS: reference server response rejected: " \o j.why)
+    ELSE IF ~j.ok THEN Bad(st, (IF realsrv THEN "the library's own server (LocalNode): " ELSE "HARNESS: reference server response rejected: ") \o j.why)
     ELSE IF st.expTO /\ ~(e.q[1] = 128 /\ AbortCode(e.q) = AbTimeout)
       THEN Bad(st, "lost response not followed by an abort frame with the time-out code")
     ELSE LET st1 == [st EXCEPT !.sv = j.sv, !.buf = j.buf, !.store = j.store, !.expTO = FALSE] IN
@@ -89,7 +89,7 @@ OnRaise(st, e) ==
 CStep(st, e, t) ==
     LET data == IF st.ci > 0 THEN t.ev[st.ci].data ELSE <<>> IN
     CASE e.e = "call" -> OnCall(st, e, e.n)
-      [] e.e = "x" -> OnX(st, e, t.od, data)
+      [] e.e = "x" -> OnX(st, e, t.od, data, "realsrv" \in DOMAIN t /\ t.realsrv)
       [] e.e = "inject" -> IF st.busy THEN Bad(st, "HARNESS: inject during a call") ELSE Good(st)
       [] e.e = "ret" -> OnRet(st, e, t.od, data)
       [] e.e = "raise" -> OnRaise(st, e)
